@@ -57,6 +57,13 @@ class HitList(list):
         conc = sum(1 for e in self if not isinstance(e, Splice))
         return pyvc.SymInt(z3.simplify(self._sym_part() + conc), "len(addr_list)")
 
+    # the list is append-only for the code under contract: removing, replacing or reordering elements would act on the
+    # placeholders natively (a sort / de-duplication of "all hits so far" is not a sort of the placeholder)
+    def _frozen(self, *a, **k):
+        raise pyvc.Unsupported("the list of hits is reordered / replaced / shortened (native operation on a symbolic sequence of hits)")
+
+    sort = reverse = __setitem__ = __delitem__ = pop = remove = insert = clear = __imul__ = _frozen
+
 
 CC = "jasm.consumer.CompleteConsumer"
 MO = "jasm.matched_observers.MatchedObserver"
@@ -444,6 +451,47 @@ def finalize():
                     okr = z3_valid(p.pc, mt == z3.BoolVal(found_line))[0] == PROVED
                 obs.append(simple_ob(f"{base}:p{i}:POST-result-line", MO + ".finalize", "POST",
                                      "exactly one RESULT line, 'Pattern found' iff matched", okr, ["C20", "C12"], detail=repr(res), witness=repr(res)))
+    return obs
+
+
+@scenario("driver:observer-finalize", MO + ".finalize", ["C11", "C12"],
+          doc="FRAME: reporting the verdict leaves the collected hits as they are (same elements, same order, duplicates included)")
+def observer_finalize():
+    ensure()
+    obs: List[Ob] = []
+    # (a) over ANY list of hits: a list holding the placeholder of a symbolic sequence of hits -- every operation that replaces,
+    # reorders or shortens it is refused by the proxy (UNDECIDED, the witness then comes from the modes sweep)
+    def fn():
+        mo = J.mobs.MatchedObserver()
+        sp = Splice("M", "len", None)
+        mo.addr_list = HitList([sp])
+        mo._matched = True
+        mo.finalize()
+        return [mo.addr_list, sp, mo._matched]
+    try:
+        run = sym_run(fn)
+        for i, p in enumerate(run.paths):
+            ok = p.kind == "ret" and list.__len__(p.value[0]) == 1 and list.__getitem__(p.value[0], 0) is p.value[1] and p.value[2] is True
+            obs.append(simple_ob(f"observer-finalize:any-hits:p{i}:FRAME", MO + ".finalize", "FRAME",
+                                 "finalize() leaves addr_list (all hits, in scan order) and the matched flag unchanged", ok, ["C11", "C12"],
+                                 detail=repr(p.value)[:200], witness="any list of hits"))
+    except Unsupported as e:
+        obs.append(simple_ob("observer-finalize:any-hits:RUN", MO + ".finalize", "RUN", "symbolic execution completes", None, ["C11", "C12"],
+                             detail=f"unsupported: {e}"))
+    # (b) the same on concrete lists at the edges: equal hits, hits whose text order differs from the scan order, no hits
+    for lid, hits in (("duplicates", ["0", "0", "0"]), ("text-order", ["ff8", "1000", "1004"]), ("full-text-dups", ["0::push,%rbp,|", "0::push,%rbp,|"]),
+                      ("empty", []), ("one", ["401000"])):
+        mo = J.mobs.MatchedObserver()
+        for h in hits:
+            mo.regex_matched(h)
+        before, flag = list(mo.addr_list), mo.matched
+        try:
+            mo.finalize()
+            ok, det = list(mo.addr_list) == before and mo.matched == flag, repr(mo.addr_list)
+        except Exception as e:   # noqa
+            ok, det = False, repr(e)
+        obs.append(simple_ob(f"observer-finalize:{lid}:FRAME", MO + ".finalize", "FRAME",
+                             f"[{lid}] finalize() leaves the hits {before} and the flag unchanged", ok, ["C11", "C12"], detail=det, witness=repr(hits)))
     return obs
 
 
